@@ -1132,6 +1132,12 @@ def _exec_c17(trace, res):
             elif kind == "drop_elements_at_junctions":
                 drop = rng.sample(J[1:], 1)
                 ne, be = rng.choice([(True, True), (True, True), (True, False), (False, True)])
+                if "press_control" in net and len(net.press_control) and rng.random() < 0.5:
+                    # the junction a pressure controller watches, node elements only: the controller is a branch element
+                    cj = [int(x) for x in net.press_control.controlled_junction.values if int(x) in J[1:]]
+                    if cj:
+                        drop = [rng.choice(cj)]
+                        ne, be = rng.choice([(True, False), (True, False), (False, True)])
                 expect_removed = _attached(net, drop, node_elements=ne, branch_elements=be)
                 if (ne, be) == (True, True) and rng.random() < 0.5:
                     tb.drop_elements_at_junctions(net, drop)
